@@ -42,6 +42,17 @@ func runC10(ctx *Ctx) {
 			unknown := rapid.IntRange(0, 2).Draw(rt, "unknown") == 0 && sub != "json" && sub != "text" && sub != "jsonany"
 			canonical := sub == "json" || sub == "text" || sub == "jsonany" || rapid.Bool().Draw(rt, "canonical")
 			b, d := ctx.genTypeStream(rt, t, unknown, canonical)
+			if (sub == "json" || sub == "text" || sub == "cross" || sub == "clone" || sub == "walk") && rapid.IntRange(0, 24).Draw(rt, "bigmap") == 0 {
+				// maps of dozens of entries (rare: large)
+				cfgb := ctx.streamCfg(false, true)
+				cfgb.MapBurst, cfgb.MaxRecords = 100, 3
+				if bb := cfgb.GenStream(rt, t.Desc, 0); bb != nil {
+					if db, err := decodeD(t, bb); err == nil {
+						b, d = bb, db
+						ctx.Label("big-map-burst")
+					}
+				}
+			}
 			if d == nil && sub == "checkinit" && model.HasRequired(t.Desc) {
 				// values with unset required fields are this sub's business
 				cfg := ctx.streamCfg(unknown, canonical)
